@@ -8,12 +8,15 @@
       1. what validity forces on a message (the walker is not vacuously permissive) + rejected
          near-misses (one length octet off) as Examples;
       2. validity of everything the modelled constructors return [Ok]:
-         NOTIFICATION, KEEPALIVE, ROUTE-REFRESH (model/YMsg.v), OPEN (model/YOpen.v),
-         IPv4 prefix lists and the standard attributes (model/YPrefix4.v, YAttr.v).
-    The constructors that have no Coq model (MP families, tunnel encapsulation, SR-TE, PMSI,
-    IPv6 flowspec) are checked by running this same walker on the implementation's real output
-    (harness/props/c08.py). *)
-From YV Require Import lib.Base gen.Consts spec.Walker model.YMsg proof.WalkerProofs.
+         NOTIFICATION, KEEPALIVE, ROUTE-REFRESH (model/YMsg.v), IPv4 prefix lists with and
+         without add-path (model/YPrefix4.v), and ten of the standard attributes one at a time
+         (model/YAttr.v: ORIGIN, AS_PATH, NEXT_HOP, MED, LOCAL_PREF, ATOMIC_AGGREGATE, AGGREGATOR,
+         COMMUNITIES, ORIGINATOR_ID, CLUSTER_LIST).
+    NOT proved here (checked by running this same walker on the implementation's real output,
+    harness/props/c08.py): OPEN (model/YOpen.v exists), EXTENDED / LARGE COMMUNITIES, the
+    assembly of several attributes and sections into one UPDATE (model/YUpdate.v), and every
+    constructor without a model (MP families, tunnel encapsulation, SR-TE, PMSI, IPv6 flowspec). *)
+From YV Require Import lib.Base gen.Consts spec.Walker model.YMsg model.YPrefix4 model.YAttr proof.WalkerProofs.
 
 (* ------------------------------------------------------------------------------------- *)
 (** * 1. the walker means something *)
@@ -157,3 +160,74 @@ Proof. exact rr_valid. Qed.
 Print Assumptions C08_route_refresh_valid.
 Example C08_rr_nonvacuous : rr_construct 5 2 0 128 = Ok (marker16 ++ [0; 23; 5; 0; 2; 0; 128]).
 Proof. vm_compute. reflexivity. Qed.
+
+(* ------------------------------------------------------------------------------------- *)
+(** * 3. IPv4 prefix lists and single attributes *)
+
+(** prefixes occupy ceil(len/8) octets (model of the code repaired by c06-prefix-zero-length.diff) *)
+Theorem C08_prefix_v4_valid : forall ps b,
+  construct_prefix_v4 ps = Ok b -> valid_prefixes4 cfg0 b = true.
+Proof. exact construct_prefix_v4_valid. Qed.
+Print Assumptions C08_prefix_v4_valid.
+Theorem C08_prefix_v4_addpath_valid : forall ps b,
+  construct_prefix_v4_ap ps = Ok b -> valid_prefixes4 (mkw false true false) b = true.
+Proof. exact construct_prefix_v4_ap_valid. Qed.
+Print Assumptions C08_prefix_v4_addpath_valid.
+Example C08_prefix_nonvacuous :
+  construct_prefix_v4 [(167772160, 8); (0, 0); (3232235776, 23)] = Ok [8; 10; 0; 23; 192; 168; 1].
+Proof. vm_compute. reflexivity. Qed.
+
+(** the attribute classes' FLAG constants (gen/Consts.v, regenerated from yabgp on every run)
+    fit the RFC category of their type code; the length octet equals the value that follows *)
+Theorem C08_origin_valid : forall c v b, construct_origin v = Ok b -> valid_attrs c b = true.
+Proof. exact construct_origin_valid. Qed.
+Print Assumptions C08_origin_valid.
+Theorem C08_nexthop_valid : forall c a b, construct_nexthop a = Ok b -> valid_attrs c b = true.
+Proof. exact construct_nexthop_valid. Qed.
+Print Assumptions C08_nexthop_valid.
+Theorem C08_med_valid : forall c v b, construct_med v = Ok b -> valid_attrs c b = true.
+Proof. exact construct_med_valid. Qed.
+Print Assumptions C08_med_valid.
+Theorem C08_localpref_valid : forall c v b, construct_localpref v = Ok b -> valid_attrs c b = true.
+Proof. exact construct_localpref_valid. Qed.
+Print Assumptions C08_localpref_valid.
+Theorem C08_atomic_valid : forall c b, construct_atomic = Ok b -> valid_attrs c b = true.
+Proof. exact construct_atomic_valid. Qed.
+Print Assumptions C08_atomic_valid.
+Theorem C08_originator_valid : forall c a b, construct_originator a = Ok b -> valid_attrs c b = true.
+Proof. exact construct_originator_valid. Qed.
+Print Assumptions C08_originator_valid.
+(** AGGREGATOR: 6 or 8 octets according to the same 4-octet-AS flag the walker is given *)
+Theorem C08_aggregator_valid : forall asn4 ap cr asn a b,
+  construct_aggregator asn4 asn a = Ok b -> valid_attrs (mkw asn4 ap cr) b = true.
+Proof. exact construct_aggregator_valid. Qed.
+Print Assumptions C08_aggregator_valid.
+Theorem C08_community_valid : forall c l b, construct_community l = Ok b -> valid_attrs c b = true.
+Proof. exact construct_community_valid. Qed.
+Print Assumptions C08_community_valid.
+Theorem C08_clusterlist_valid : forall c l b, construct_clusterlist l = Ok b -> valid_attrs c b = true.
+Proof. exact construct_clusterlist_valid. Qed.
+Print Assumptions C08_clusterlist_valid.
+Example C08_attr_nonvacuous :
+  construct_nexthop 167772161 = Ok [64; 3; 4; 10; 0; 0; 1] /  construct_community [CPair 65001 1; CWk 4294967041] = Ok [192; 8; 8; 253; 233; 0; 1; 255; 255; 255; 1].
+Proof. vm_compute. auto. Qed.
+
+(** AS_PATH, full statement: false for the code as it is (the segment-type test of
+    ASPath.construct is `assert <exception object>`, which never fires) *)
+Definition C08_aspath_valid_statement : Prop := forall asn4 ap cr segs b,
+  construct_aspath asn4 segs = Ok b -> valid_attrs (mkw asn4 ap cr) b = true.
+Theorem C08_aspath_refuted : exists segs b,
+  construct_aspath false segs = Ok b /\ valid_attrs cfg0 b = false.
+Proof. exact aspath_bad_segment_type. Qed.
+Print Assumptions C08_aspath_refuted.
+(** proved under the exact guard "every segment type is one of 1..4" (the guard disappears once
+    build/proposed/c08-aspath-segment-type.diff is applied and the model raises for other types);
+    covers the 1-octet and the extended (2-octet, flag bit 16) length forms *)
+Theorem C08_aspath_valid_partial : forall asn4 ap cr segs b,
+  Forall (fun s => 1 <= fst s <= 4) segs ->
+  construct_aspath asn4 segs = Ok b -> valid_attrs (mkw asn4 ap cr) b = true.
+Proof. exact construct_aspath_valid. Qed.
+Print Assumptions C08_aspath_valid_partial.
+Example C08_aspath_nonvacuous :
+  construct_aspath false [(2, [65001; 65002])] = Ok [64; 2; 6; 2; 2; 253; 233; 253; 234] /  (exists b, construct_aspath true [(2, repeat 7 64)] = Ok (80 :: 2 :: 1 :: 2 :: b)).
+Proof. vm_compute. split; [reflexivity | eexists; reflexivity]. Qed.
